@@ -460,6 +460,9 @@ class QosWorld:
         params = self.params
         n = len(params["callers"])
         self.callers = [None] * n
+        if params.get("paused_at_start"):  # the transport has asked the protocol to stop writing before anybody calls
+            self.paused = True
+            self.proto.pause_writing()
         for i, c in enumerate(params["callers"]):
             if c.get("start", "t0") == "t0":
                 self.start_caller(i)
@@ -653,6 +656,9 @@ def run_script(params: dict, script):
     w.ch = ScriptChooser(script)
     n = len(params["callers"])
     w.callers = [None] * n
+    if params.get("paused_at_start"):
+        w.paused = True
+        w.proto.pause_writing()
     for i, c in enumerate(params["callers"]):
         if c.get("start", "t0") == "t0":
             w.start_caller(i)
